@@ -18,7 +18,7 @@ Pick == /\ c = Seed
 Next == Pick
 Spec == Init /\ [][Next]_c
 
-Emit == c = Seed \/ PrintT(<<"CASE", ToJson(c)>>)
+Emit == IF c = Seed THEN TRUE ELSE PrintT(<<"CASE", ToJson(c)>>)
 
 InvRelocation  == c # Seed => SurvivesRelocation(OptionsOf(c))
 InvRemoteSpawn == c # Seed => SurvivesRemoteSpawn(OptionsOf(c))
